@@ -213,6 +213,15 @@ var runawayPrograms = []string{
 	"{ dup } loop", "1 { dup dup } loop", "1 { 2 copy } loop", "{ count copy } loop", "[ { 1 } loop", "{ [ } loop", "{ mark } loop", "{ currentdict } loop",
 	"{ 1 array } loop", "{ 65536 array } loop", "{ 65536 string } loop", "{ (x) } loop", "65537 array", "65537 string", "65537 dict", "-1 array", "-1 string", "-1 dict",
 	"9223372036854775807 array", "9223372036854775807 string", "9223372036854775807 dict", "65536 array 65536 string 65536 dict",
+	// loops with counts next to the largest integer and an empty body (an operator that accounts for the remaining
+	// rounds in one step must not let the counter wrap), followed by more work
+	"9223372036854775807 {} repeat 1 2 3 4 5 6 7 8", "9223372036854775800 {} repeat 1 2 3", "9223372036854775807 { } repeat", "4611686018427387904 {} repeat 1",
+	"0 1 9223372036854775807 {} for 1 2 3", "-9223372036854775808 1 9223372036854775807 { pop } for", "9223372036854775807 { 1 pop } repeat",
+	// recursion through an executable name that is handed to an operator as an object (taken out of a procedure,
+	// or stored and loaded), not met inside a body: it takes an execution-stack level like every other call
+	"/d 0 def /f { /d d 1 add def true { f } 0 get if /d d 1 sub def } def f", "/f { true { f } 0 get if } def f", "/f { true { f } 0 get { } ifelse } def f",
+	"/f { false { } { f } 0 get ifelse 1 } def f", "/f { { f } 0 get loop } def f", "/f { 0 1 1 { f } 0 get for } def f", "/f { 1 { f } 0 get repeat 1 } def f",
+	"/f { { f } 0 get exec 1 } def f", "/g { f } 0 get def /f { true /g load if 1 } def f", "/a { true { b } 0 get if } def /b { true { a } 0 get if } def a",
 	"/f { f f } def f", "/a { b } def /b { a } def a", "{ { { { { { { { { { 1 } exec } exec } exec } exec } exec } exec } exec } exec } exec } exec",
 }
 
@@ -308,8 +317,8 @@ func suiteBudget(o *suiteOut, r *rng, tier string, n int) {
 				continue
 			}
 			o.count("runaway programs")
-			if intp.NumOps > N+1 {
-				o.fail("C11", "never counting past N+1", line, fmt.Sprint("NumOps <= ", N+1), fmt.Sprint(intp.NumOps))
+			if intp.NumOps > N+1 || intp.NumOps < 0 {
+				o.fail("C11", "never counting past N+1", line, fmt.Sprint("0 <= NumOps <= ", N+1), fmt.Sprint(intp.NumOps))
 			}
 			if len(intp.Stack) > 2*500+2 {
 				o.fail("C11", "operand stack growth is cut off", line, "<= 1002", fmt.Sprint(len(intp.Stack)))
@@ -437,6 +446,12 @@ func suiteBudget(o *suiteOut, r *rng, tier string, n int) {
 // ---------------------------------------------------------------- hostile
 
 var hostileFixed = []string{
+	// names with characters the serialiser cannot write (taken from systemdict: `<<`, `>>`, `[`, `]`; strings used as
+	// keys) as operands of the operators that mention the name in their error message
+	"systemdict { pop exit } forall findfont", "systemdict { pop exit } forall /Font findresource", "systemdict { pop exit } forall /CMap findresource",
+	"systemdict { pop exit } forall /X exch findresource", "systemdict { pop exit } forall 1 exch defineresource", "/X 1 systemdict { pop exit } forall defineresource",
+	"(Adobe Japan1) /CMap findresource", "(a b) findfont", "(a(b) /Font findresource", "(x) (y z) findresource", "/[ load pop systemdict /] known", "systemdict { pop dup findfont } forall",
+	"[ systemdict { pop } forall ] { /Font findresource } forall", "[ systemdict { pop } forall ] 1 get findfont", "[ systemdict { pop } forall ] 2 get /ProcSet findresource",
 	"1 2 9223372036854775807 copy", "(abc) 9223372036854775807 (x) putinterval", "errordict /typecheck get exec", "[1 2 3] 9223372036854775807 [1] putinterval",
 	"[0] dup dup 0 exch put dup bind", "{0} dup dup 0 exch put bind", "{0} dup dup 0 exch put exec", "[0] dup dup 0 exch put { } forall", "[0] dup dup 0 exch put dup eq",
 	"[0] dup dup 0 exch put dup 0 get 0 get 0 get length", "<< /a 1 >> dup dup /self exch put { pop pop } forall", "1 -9223372036854775808 roll", "1 2 3 3 9223372036854775807 roll",
